@@ -37,7 +37,7 @@ namespace
 {
 
 // ---------------------------------------------------------------- symbol sets
-constexpr unsigned NSETS = 5;
+constexpr unsigned NSETS = 6;
 
 void build_set(unsigned id, problem &p)
 {
@@ -92,6 +92,15 @@ void build_set(unsigned id, problem &p)
     s.insert(f.make("1.0", {0}));
     s.insert(f.make("2.0", {0}));
     s.insert(f.make("3.0", {0}), 3.0);
+    break;
+  case 5:   // two categories, few symbols: many equal genes (the set on which cse() first failed)
+    s.insert(std::make_unique<real::add>(cvect{0}));
+    s.insert(f.make("1.0", {0}));
+    s.insert(f.make("2.0", {0}));
+    s.insert(std::make_unique<real::length>(cvect{1, 0}));
+    s.insert(std::make_unique<str::ife>(cvect{0, 1}));       // (r, r, s, s) -> string
+    s.insert(f.make("apple", {1}));
+    s.insert(f.make("pear", {1}));
     break;
   default:  // two categories, the second one without functions and with a zero-weight terminal
     s.insert(f.make("1.0", {0}), 2.0);
@@ -499,6 +508,7 @@ struct runner
     const bool st = o.cross_step(l, r, x), wf = o.wf(x);
     shape(id, x); note("flavour", int(x.verif_crossover_type()));
     note("forced", l.verif_crossover_type() == r.verif_crossover_type());
+    note("ages_differ", l.age() != r.age());
     note("trivial", o.changed(l, x) == 0 || o.changed(r, x) == 0);
     end("crossover", S(x), wf, st, wf && x.is_valid(), wf ? exec(x) : "skipped", true, o.why);
     last_ok = wf;
@@ -546,6 +556,24 @@ struct runner
     const bool st = o.destroy_step(a, idx, x), wf = o.wf(x);
     shape(id, x); note("trivial", o.changed(a, x) == 0);
     end("destroy", S(x), wf, st, wf && x.is_valid(), wf ? exec(x) : "skipped", true, o.why);
+    last_ok = wf;
+    return x;
+  }
+
+  // ageing (individual::inc_age, done by the evolution loop) makes "age of the older parent" observable
+  i_mep op_incage(unsigned id, const i_mep &a)
+  {
+    setinfo &si = *sets[id];
+    oracle o{si};
+    begin("incage" + N(id) + S(a));
+    i_mep x(a);
+    x.inc_age();
+    bool st = x.size() == a.size() && x.categories() == a.categories() && x.best() == a.best()
+              && x.verif_crossover_type() == a.verif_crossover_type() && o.changed(a, x) == 0;
+    if (st && x.age() != a.age() + 1) { st = false; o.fail("age"); }
+    const bool wf = o.wf(x);
+    shape(id, x);
+    end("incage", S(x), wf, st, wf && x.is_valid(), wf ? exec(x) : "skipped", true, o.why);
     last_ok = wf;
     return x;
   }
@@ -690,8 +718,10 @@ struct runner
                                          : gene(p.sset.roulette_terminal(l.category));
         add(op_replace(id, a, l, g, at_best, true));
       }
-      else if (r < 86)
+      else if (r < 85)
         add(op_destroy(id, a, index_t(rng.below(len))));
+      else if (r < 90)
+        add(op_incage(id, a));
       else if (r < 97)
         add(op_cse(id, a));
       else
@@ -715,8 +745,10 @@ struct runner
         { g = a[fl[0]]; l = {len - 1, 0}; }                                // a function in the last row
         else
           continue;
+#if defined(NDEBUG)
         op_replace(id, a, l, g, false, false);
         last_ok = true;    // deliberately ill-formed, not reused
+#endif                     // (the assertion-enabled build would stop at Ensures(is_valid()))
       }
     }
   }
@@ -748,6 +780,11 @@ struct runner
       {
         const team_t &b = pool[rng.below(pool.size())];
         std::vector<i_mep> va(a.begin(), a.end()), vb(b.begin(), b.end());
+        for (unsigned m = 0; m < k; ++m)      // ageing, as the evolution loop does
+        {
+          if (rng.below(3) == 0) va[m].inc_age();
+          if (rng.below(4) == 0) vb[m].inc_age();
+        }
         if (rng.below(10) < 8)
           for (unsigned m = 0; m < k; ++m)
           {
@@ -767,7 +804,7 @@ struct runner
     scenario = k;
     opn = 0;
     last_ok = true;
-    alarm(90);   // watchdog: an operator that never returns is attributed to its request
+    alarm(15);   // watchdog: an operator that never returns is attributed to its request
     rng = verif::splitmix(seed * 1000003ull + k);
     vita::random::seed(unsigned(rng.next() & 0x7fffffff));
     static const index_t lens[] = {2, 3, 4, 5, 6, 7, 8, 10, 12, 16, 20, 24, 32, 48, 64};
@@ -842,6 +879,8 @@ struct runner
     { const index_t i = rd.u(); const i_mep a(read_ind(rd, si)); fit(a, 1); op_destroy(id, a, i); }
     else if (op == "cse")
     { const i_mep a(read_ind(rd, si)); fit(a, 1); op_cse(id, a); }
+    else if (op == "incage")
+    { const i_mep a(read_ind(rd, si)); fit(a, 1); op_incage(id, a); }
     else if (op == "replace")
     { const index_t i = rd.u(); const category_t c = rd.u(); const i_mep a(read_ind(rd, si)); fit(a, 1);
       const locus l{i, c};
@@ -891,7 +930,7 @@ int main(int argc, char **argv)
       {
         r.scenario = k; r.opn = j;
         r.last_ok = true;
-        alarm(90);
+        alarm(15);
         r.rng = verif::splitmix(seed * 7919ull + k * 131ull + j);
         vita::random::seed(unsigned(r.rng.next() & 0x7fffffff));
         try { r.replay_request(line); }
